@@ -287,6 +287,23 @@ func (ufs *Ufs) within(p string) bool {
 	return strings.HasPrefix(p, root+"/")
 }
 
+// atRoot reports whether path designates the root of the exported tree,
+// however it is spelled: the host resolves '..' from where a path leads
+// (behind a symbolic link: from the link's target), not from its spelling.
+func (ufs *Ufs) atRoot(path string) bool {
+	st, err := os.Stat(path)
+	if err != nil {
+		return false
+	}
+
+	rst, err := os.Stat(filepath.Clean(ufs.Root))
+	if err != nil {
+		return false
+	}
+
+	return os.SameFile(st, rst)
+}
+
 // badName reports whether a name supplied by a client for a single
 // directory entry (walk element, create name) is not one: empty, '.',
 // '..' or containing a '/'.
@@ -356,7 +373,7 @@ func (*Ufs) Walk(req *SrvReq) {
 		}
 
 		p := path + "/" + tc.Wname[i]
-		if tc.Wname[i] == ".." && ufs != nil && !ufs.within(p) {
+		if tc.Wname[i] == ".." && ufs != nil && ufs.atRoot(path) {
 			/* '..' at the root of the exported tree is the root */
 			p = path
 		}
